@@ -55,6 +55,7 @@ groups, weights), every rule of g used as top:
       public rule with that rule's language.
 """
 import json, math, os, re
+import time
 from fractions import Fraction
 import vlib
 
@@ -2409,10 +2410,21 @@ def check(c):
     ccases = []
     for f in corpus:
         obj = json.loads(f.read_text())
+        if obj.get("kind") == "big-grammar":
+            if not replay_big(c, obj):
+                c.oblige(f"corpus case {f.name} passes", False)
+            evaluations += 1
+            continue
         g = fix_grammar(obj["grammar"])
         ccases.append((g, obj.get("jsgf_text") or Printer(plain=True).grammar(g), None))
     if ccases:
         process(ccases, "corpus")
+    okbig = big_grammar_family(c, stats)
+    c.oblige("big-grammar family: for grammars whose expansion allocates more than 2^15 and more than 2^16 states (thorough: 2^17) "
+             "the raw FSG accepts exactly the k phrases of the grammar (all accepted, acyclic, k start->final paths) and the closed "
+             "FSG accepts all of them and none of the sampled prefixes / suffixes / splices / concatenations", okbig,
+             stats.get("big_grammar_family"))
+    evaluations += len(stats.get("big_grammar_family", []))
     ncases = 1200 if c.tier == "quick" else 20000
     batch = []
     for i in range(ncases):
@@ -2528,7 +2540,233 @@ def check(c):
                   "max_explored_forms": stats["max_forms"], "explored_forms_total": stats["forms_total"],
                   "max_fsg_states": stats["max_fsg_states"], "max_fsg_arcs": stats["max_fsg_arcs"],
                   "text_front_end_stream": stats.get("text_stream", {}), "text_mutation_kinds": stats.get("mutation_kind", {}),
+                  "big_grammar_family(closed-form language; states crossing 2^15 / 2^16 / 2^17)": stats.get("big_grammar_family"),
                   "failing_cases_per_class": fail_count})
+
+
+# ----------------------------------------------------------------------------
+# big-grammar family (close-c05c18): counts crossing integer widths on the compile path.  Grammars with a CLOSED-FORM
+# language — k distinct phrases of n words — big enough that the expansion allocates more than 2^15 / 2^16 / 2^17 states.
+# The language of the produced FSG is decided completely, without the model driver (whose explored-forms comparison is
+# for small grammars): on the RAW FSG (one arc per expansion link) every phrase is accepted, the graph is acyclic and the
+# number of start->final paths is exactly k  =>  the FSG accepts exactly the k phrases;  on the CLOSED FSG (what the decoder
+# gets) every phrase is accepted and sampled non-members (proper prefixes, proper suffixes, cross-phrase splices, doubled
+# phrases, the empty sentence) are refused.
+
+BIG_STYLES = ("flat", "rules", "groups", "shared-vocabulary")
+
+
+def big_grammar(style, k, n, seed):
+    """(JSGF text, top rule full name, list of the k phrases as tuples of words) — deterministic in its arguments"""
+    import random
+    r = random.Random(seed * 1000003 + k * 31 + n)
+    phrases = []
+    if style == "shared-vocabulary":
+        vocab = [f"v{j}" for j in range(40)]
+        seen = set()
+        while len(phrases) < k:
+            ph = tuple(r.choice(vocab) for _ in range(n))
+            if ph not in seen:
+                seen.add(ph)
+                phrases.append(ph)
+    else:
+        phrases = [tuple(f"w{i}x{j}" for j in range(n)) for i in range(k)]
+    if style == "rules":
+        body = "".join(f"<p{i}> = {' '.join(ph)};\n" for i, ph in enumerate(phrases))
+        top = "public <s> = " + " | ".join(f"<p{i}>" for i in range(k)) + ";\n"
+        text = "#JSGF V1.0;\ngrammar big;\n" + top + body
+    elif style == "groups":
+        # every phrase as ( first half ) ( second half ): one generated rule per group
+        h = max(1, n // 2)
+        alts = [f"( {' '.join(ph[:h])} ) " + (f"( {' '.join(ph[h:])} )" if ph[h:] else "") for ph in phrases]
+        text = "#JSGF V1.0;\ngrammar big;\npublic <s> = " + "\n | ".join(alts) + ";\n"
+    else:
+        text = "#JSGF V1.0;\ngrammar big;\npublic <s> = " + "\n | ".join(" ".join(ph) for ph in phrases) + ";\n"
+    return text, "<big.s>", phrases
+
+
+def fsg_sim(fsg):
+    """acceptance test on a dumped FSG (epsilon arcs = arcs without a word)"""
+    word, eps = {}, {}
+    for f, t, _, w in fsg["arcs"]:
+        if w is None:
+            eps.setdefault(f, []).append(t)
+        else:
+            word.setdefault((f, w), []).append(t)
+
+    def close(S):
+        S = set(S)
+        todo = list(S)
+        while todo:
+            x = todo.pop()
+            for y in eps.get(x, ()):
+                if y not in S:
+                    S.add(y)
+                    todo.append(y)
+        return S
+
+    def accepts(sent):
+        S = close([fsg["start"]])
+        for w in sent:
+            S = close([t for x in S for t in word.get((x, w), ())])
+            if not S:
+                return False
+        return fsg["final"] in S
+    return accepts
+
+
+def fsg_path_count(fsg):
+    """number of start->final paths (None when a cycle is reachable from the start state)"""
+    out = {}
+    for f, t, _, w in fsg["arcs"]:
+        out.setdefault(f, []).append(t)
+    start, final = fsg["start"], fsg["final"]
+    color, order, stack = {start: 1}, [], [(start, 0)]
+    while stack:
+        x, i = stack.pop()
+        succ = out.get(x, ())
+        if i < len(succ):
+            stack.append((x, i + 1))
+            y = succ[i]
+            cy = color.get(y, 0)
+            if cy == 1:
+                return None
+            if cy == 0:
+                color[y] = 1
+                stack.append((y, 0))
+        else:
+            color[x] = 2
+            order.append(x)
+    cnt = {}
+    for x in order:          # post-order: successors first
+        cnt[x] = (1 if x == final else 0) + sum(cnt[y] for y in out.get(x, ()))
+    return cnt[start]
+
+
+def big_probes(phrases, seed, nprobe):
+    """(sentence, kind) probes that are NOT in the language unless the set lookup says so"""
+    import random
+    r = random.Random(seed + 17)
+    k = len(phrases)
+    pr = [((), "empty sentence")]
+    idx = sorted(set([0, 1, k - 1, k // 2] + [r.randrange(k) for _ in range(nprobe)]))
+    for i in idx:
+        ph = phrases[i]
+        j = phrases[r.randrange(k)]
+        if len(ph) > 1:
+            cut = r.randrange(1, len(ph))
+            pr.append((ph[:cut], "proper prefix"))
+            pr.append((ph[cut:], "proper suffix"))
+            pr.append((ph[:cut] + j[cut:], "cross-phrase splice"))
+            pr.append((ph[:1], "first word only"))
+            pr.append((ph[-1:], "last word only"))
+        pr.append((ph + j, "two phrases concatenated"))
+        pr.append((ph + ph[-1:], "phrase + one more word"))
+    return pr
+
+
+def big_eval(style, k, n, seed, scratch, tag):
+    """runs one instance on the real code; returns (info dict, failure dict or None)"""
+    text, top, phrases = big_grammar(style, k, n, seed)
+    path = scratch / f"big_{tag}.gram"
+    path.write_text(text)
+    binp = vlib.build_harness("h_c05")
+    t0 = time.time()
+    rc, out, err = vlib.run_bin(binp, stdin_text=f"bigfile {tag} {path} {hx(top)}\n", timeout=1800,
+                                env_extra={"JSGF_PATH": "/nonexistent-verif-c05"})
+    info = {"style": style, "phrases": k, "words_per_phrase": n, "seed": seed, "jsgf_bytes": len(text), "seconds_real_code": round(time.time() - t0, 1)}
+    fsgs = {}
+    for l in out.split("\n"):
+        w = l.split()
+        if len(w) >= 4 and w[0] == "bigfsg" and w[2] in ("raw", "closed"):
+            fsgs[w[2]] = None if w[3] == "null" else parse_fsg_body(w[3:])
+    base = {"kind": "big-grammar", "style": style, "phrases": k, "words_per_phrase": n, "seed": seed,
+            "grammar_head": text[:300], "how_to_rerun": "python3 tools/check.py C05 --replay <this file>"}
+    if rc != 0 or "raw" not in fsgs or "closed" not in fsgs:
+        return info, dict(base, what=f"the compiler crashed / gave no FSG for a legal grammar of {k} phrases: rc={rc} {out[-200:]} {sanitizer_summary(err)}",
+                          implementation=True)
+    if fsgs["raw"] is None or fsgs["closed"] is None:
+        return info, dict(base, what="jsgf_build_fsg refused a legal non-recursive grammar", implementation=True)
+    info.update({"raw_states": fsgs["raw"]["n"], "raw_arcs": len(fsgs["raw"]["arcs"]), "closed_arcs": len(fsgs["closed"]["arcs"])})
+    member = set(phrases)
+    for kind in ("raw", "closed"):
+        f = fsgs[kind]
+        bad_arc = [a for a in f["arcs"] if not (0 <= a[0] < f["n"] and 0 <= a[1] < f["n"])]
+        if bad_arc:
+            return info, dict(base, what=f"{kind} FSG has an arc outside its {f['n']} states: {bad_arc[0][:2]}", implementation=True)
+        acc = fsg_sim(f)
+        for ph in phrases:
+            if not acc(ph):
+                return info, dict(base, fsg=kind, sentence=list(ph), in_jsgf_language=True, fsg_accepts=False, implementation=True,
+                                  what=f"{kind} FSG ({f['n']} states) refuses a sentence of the grammar")
+        for sent, pk in big_probes(phrases, seed, 60):
+            want = tuple(sent) in member
+            if acc(sent) != want:
+                return info, dict(base, fsg=kind, sentence=list(sent), probe_kind=pk, in_jsgf_language=want, fsg_accepts=not want,
+                                  implementation=True,
+                                  what=f"{kind} FSG ({f['n']} states) accepts a word sequence the grammar does not denote ({pk})" if not want
+                                  else f"{kind} FSG refuses a sentence of the grammar")
+    paths = fsg_path_count(fsgs["raw"])
+    info["raw_start_to_final_paths"] = paths
+    if paths != k:
+        return info, dict(base, fsg="raw", implementation=True, start_to_final_paths=paths,
+                          what=(f"raw FSG has a cycle reachable from the start state: it accepts infinitely many word sequences, the grammar denotes {k}"
+                                if paths is None else
+                                f"raw FSG has {paths} start->final paths, the grammar denotes exactly {k} sentences (each by one derivation)"))
+    return info, None
+
+
+def big_plan(rng, tier):
+    """instances (style, k, n): every run crosses 2^16 expansion states; thorough crosses 2^15 / 2^16 / 2^17 with every style"""
+    n = rng.choice([7, 9, 12])
+    per = {"flat": n, "shared-vocabulary": n, "rules": n + 3, "groups": n + 6}     # ~ states per phrase
+    plan = []
+    if tier == "quick":
+        st = rng.choice(BIG_STYLES)
+        plan.append((st, (66000 + rng.range(0, 6000)) // per[st] + 1, n))
+        plan.append((rng.choice(BIG_STYLES), (33000 + rng.range(0, 3000)) // per[st] + 1, n))
+    else:
+        for st in BIG_STYLES:
+            for target in (33500, 64000, 67000, 132000):
+                plan.append((st, (target + rng.range(0, 4000)) // per[st] + 1, n))
+    return plan
+
+
+def big_grammar_family(c, stats):
+    infos, ok = [], True
+    for i, (style, k, n) in enumerate(big_plan(c.rng, c.tier)):
+        seed = c.rng.range(1, 10 ** 6)
+        info, fail = big_eval(style, k, n, seed, c.scratch, f"b{i}")
+        infos.append(info)
+        if fail:
+            ok = False
+            # smallest failing phrase count on the same style (a few halvings; the runs are seconds each)
+            lo, hi = 1, k
+            for _ in range(5):
+                mid = (lo + hi) // 2
+                if mid <= lo:
+                    break
+                _, f2 = big_eval(style, mid, n, seed, c.scratch, f"b{i}s")
+                if f2:
+                    hi, fail = mid, f2
+                else:
+                    lo = mid
+            impl = fail.pop("implementation", True)
+            fail["implementation_violates_property"] = impl
+            c.violation(fail, impl)
+            break
+    stats["big_grammar_family"] = infos
+    return ok
+
+
+def replay_big(c, obj):
+    info, fail = big_eval(obj["style"], obj["phrases"], obj["words_per_phrase"], obj["seed"], c.scratch, "replay")
+    if fail:
+        impl = fail.pop("implementation", True)
+        fail["implementation_violates_property"] = impl
+        c.violation(fail, impl)
+    c.cov.update({"evaluations": 1, "distinct_nontrivial": 1, "big_grammar_family": [info]})
+    return fail is None
 
 
 def fix_grammar(g):
@@ -2553,6 +2791,9 @@ def replay(c, path):
     c.lean_obligations()
     vlib.build_harness("h_c05")
     obj = json.loads(open(path).read())
+    if obj.get("kind") == "big-grammar":
+        replay_big(c, obj)
+        return
     if "text_hex" in obj:
         res = run_text_batch([bytes.fromhex(obj["text_hex"])])[0]
         probs = judge_text(res)
